@@ -100,7 +100,7 @@ var properties = map[string]*propDef{
 			"per channel, the recovered content must equal the reference content after some operation j with d <= j <= s, where d is the last operation that acknowledged persistence for that channel (auto-commit write with always-persist, explicit commit of a non-auto-commit writer, writer close, completed delete, database close) and s the last operation started before the crash; every returned value must have been written to that channel",
 			"scripts that trigger the recorded C04 known finding (delete bound inside a rolled-over domain) are skipped, since the store is corrupt before any crash",
 		},
-		RequiredProbes: []string{"crash_points", "rollover", "gc_rewrote_file"},
+		RequiredProbes: []string{"mkchan", "rmchan", "crash_points", "rollover", "gc_rewrote_file"},
 		Units:          []unit{func() unit { u := cesiumUnit("cesium-crash", "c02"); return u }()},
 	},
 	"C10": {
